@@ -454,6 +454,7 @@ class Normaliser(object):
         body = h.body
         other_mentions = set()
         caller_stores = set()
+        loads_after = set()        # caller locals read after the call statement (or anywhere, when the call sits in a loop)
         stores_after = set()       # caller locals (re)bound after the call statement may run again: closures must not capture them
         in_loop = any(isinstance(l, (ast.For, ast.While)) and any(x is stmt for x in ast.walk(l)) for l in ast.walk(caller_fn))
         at = getattr(stmt, 'lineno', 0)
@@ -468,6 +469,8 @@ class Normaliser(object):
                         caller_stores.add(n.id)
                         if in_loop or getattr(n, 'lineno', 0) >= at:
                             stores_after.add(n.id)
+                    elif in_loop or getattr(n, 'lineno', 0) >= at:
+                        loads_after.add(n.id)
                 elif isinstance(n, ast.arg):
                     other_mentions.add(n.arg)
                 elif isinstance(n, ast.ExceptHandler) and n.name:
@@ -512,6 +515,9 @@ class Normaliser(object):
             if L in h.params:
                 arg = binding[L]
                 captured = L in h.nested_free
+                if L in h.stored and L not in h.nested_bound and isinstance(arg, ast.Name) and arg.id == L and L not in loads_after and \
+                        L not in stores_after and not enclosing_trys:
+                    continue        # the callee rebinds its parameter, but the caller never looks at that name again: it may keep it
                 if L not in h.stored and L not in h.nested_bound:
                     if isinstance(arg, ast.Name) and arg.id == L and not (captured and L in stores_after):
                         continue
@@ -870,6 +876,15 @@ class Normaliser(object):
                                 _same(s.body[0].targets[0], s.orelse[0].targets[0]) and not isinstance(s.body[0].targets[0], (ast.Tuple, ast.List)):
                             b[i] = ast.copy_location(ast.Assign(targets=s.body[0].targets,
                                                                 value=ast.IfExp(test=s.test, body=s.body[0].value, orelse=s.orelse[0].value)), s)
+                            n_ += 1
+                        # `if not x: x = e`  ->  `x = x or e`
+                        elif isinstance(s, ast.If) and not s.orelse and len(s.body) == 1 and isinstance(s.body[0], ast.Assign) and \
+                                len(s.body[0].targets) == 1 and isinstance(s.body[0].targets[0], ast.Name) and \
+                                isinstance(s.test, ast.UnaryOp) and isinstance(s.test.op, ast.Not) and isinstance(s.test.operand, ast.Name) and \
+                                s.test.operand.id == s.body[0].targets[0].id:
+                            x = s.body[0].targets[0].id
+                            b[i] = ast.copy_location(ast.Assign(targets=s.body[0].targets, value=ast.BoolOp(
+                                op=ast.Or(), values=[ast.Name(id=x, ctx=ast.Load()), s.body[0].value])), s)
                             n_ += 1
         if n_:
             self.inlined.append(('if/else assignments', str(n_), 'to-conditional-expression'))
